@@ -491,13 +491,14 @@ func init() {
 }
 
 // c16lookupAndVersions:
-//   R5  "creating a shard group is a no-op when a live group already contains the
-//       timestamp" rests on a lookup that examines EVERY group (groups of different
-//       durations, deleted ones and other engine kinds are interleaved in the
-//       list, so no ordering argument may cut the scan short) and answers only
-//       with a group that Contains the timestamp.
-//   R6  a measurement's version counter (MstVersions) outlives the measurement:
-//       it is what keeps a re-created name from being handed out twice.
+//
+//	R5  "creating a shard group is a no-op when a live group already contains the
+//	    timestamp" rests on a lookup that examines EVERY group (groups of different
+//	    durations, deleted ones and other engine kinds are interleaved in the
+//	    list, so no ordering argument may cut the scan short) and answers only
+//	    with a group that Contains the timestamp.
+//	R6  a measurement's version counter (MstVersions) outlives the measurement:
+//	    it is what keeps a re-created name from being handed out twice.
 func c16lookupAndVersions(c *an.Ctx) {
 	const M = metaPkg
 	{
